@@ -511,3 +511,138 @@ class MountLate(Backend):
 
 GROWING = [MultiLate, MultiLateDefault, MountLate]
 BY_NAME.update((b.name, b) for b in GROWING)
+
+
+# ---------------------------------------------------------------- OS trees with symbolic links (NOT in ALL; C10)
+# The content comes from a history executed through the filesystem object; then symbolic links are created below the
+# root with os.symlink: to a file (relative, absolute, a link to a link), to a directory, from inside a directory to
+# a file above it - and, confined to a directory of their own, links whose target does not exist.
+
+LINK_FILES = [("linked_f.txt", b"link target"), ("linked_d/inner.txt", b"inner"), ("linked_d/sub/deep.txt", b"deep"),
+              ("dangling_d/plain.txt", b"beside the dangling links")]
+DANGLING_DIR = "/dangling_d"
+
+
+def plant_links(root):
+    """Creates the link fixture below the OS directory root; returns the paths of the links (as FS paths)."""
+    for rel, data in LINK_FILES:
+        p = os.path.join(root, rel)
+        if not os.path.isdir(os.path.dirname(p)):
+            os.makedirs(os.path.dirname(p))
+        with open(p, "wb") as fh:
+            fh.write(data)
+    links = [("lf", "linked_f.txt"), ("ld", "linked_d"), ("labs", os.path.join(root, "linked_f.txt")), ("lchain", "lf"),
+             ("linked_d/up_f", "../linked_f.txt"), ("linked_d/sub/to_inner", "../inner.txt"),
+             ("dangling_d/gone", "no/such/target"), ("dangling_d/gone_abs", os.path.join(root, "never-there"))]
+    for entry in sorted(os.listdir(root)):       # + links to what the history created (first file, first directory)
+        p = os.path.join(root, entry)
+        if entry in ("linked_d", "dangling_d", "linked_f.txt") or os.path.islink(p):
+            continue
+        kind = "hd" if os.path.isdir(p) else "hf"
+        if not any(l == "l" + kind for l, _t in links):
+            links.append(("l" + kind, entry))
+    for l, t in links:
+        os.symlink(t, os.path.join(root, l))
+    return ["/" + l for l, _t in links]
+
+
+class _Linked(object):
+    """Mix-in for the OS-backed backends: load(history) executes the history, then plants the link fixture."""
+
+    def load(self, h):
+        for o in h:
+            fsops.execute(self.fs, o)
+        self.known_paths = plant_links(self.root)
+        return self.fs
+
+
+class OSLinks(_Linked, OS):
+    name = "OSFS(tree with symbolic links)"
+
+
+class TempLinks(_Linked, Temp):
+    name = "TempFS(tree with symbolic links)"
+
+
+class SubOSLinks(_Linked, SubOS):
+    name = "SubFS(OSFS)(tree with symbolic links)"
+
+
+class WrapOSLinks(_Linked, WrapOS):
+    name = "WrapFS(OSFS)(tree with symbolic links)"
+
+
+class CachedDirOSLinks(_Linked, CachedDirOS):
+    name = "cache_directory(OSFS)(tree with symbolic links)"
+
+    def load(self, h):          # the cache wrapper is created over the finished tree
+        from fs.wrap import cache_directory
+        for o in h:
+            fsops.execute(self.inner, o)
+        self.known_paths = plant_links(self.root)
+        self.fs = cache_directory(self.inner)
+        return self.fs
+
+
+class ReadOnlyOSLinks(_Linked, ReadOnlyOS):
+    name = "read_only(OSFS)(tree with symbolic links)"
+
+    def load(self, h):
+        for o in h:
+            fsops.execute(self.inner, o)
+        self.known_paths = plant_links(self.root)
+        return self.fs
+
+
+LINKED = [OSLinks, TempLinks, SubOSLinks, WrapOSLinks, CachedDirOSLinks, ReadOnlyOSLinks]
+BY_NAME.update((b.name, b) for b in LINKED)
+
+
+# ---------------------------------------------------------------- FTPFS on a loop-back server (NOT in ALL)
+# harness/ftpserver.py starts an in-process pyftpdlib server on 127.0.0.1 that serves a fresh directory; the snapshot
+# is that directory read with os.* (once every transfer has ended), not what the library says about it.  Callers ask
+# network_available() first and say so in their evidence when it is False.
+
+class FTP(Backend):
+    name = "FTPFS"
+    variant = "normal"
+    network = True
+
+    def make(self):
+        import ftpserver
+        self.fs, self.root, self._stop = ftpserver.make(self.variant)
+        self.server = self._stop.server
+        return self.fs
+
+    def settle(self):
+        """Wait until the server has stored whatever the clients sent before they closed their data connections."""
+        return self.server.settle()
+
+    def snapshot(self):
+        self.settle()
+        return snap_os(self.root)
+
+    def close(self):
+        try:
+            self._stop()
+        except Exception:
+            pass
+
+
+class FTPNoMLSD(FTP):
+    """The server neither advertises nor implements MLST/MLSD: FTPFS lists with LIST and fs._ftp_parse."""
+    name = "FTPFS(server without MLST/MLSD)"
+    variant = "nomlsd"
+
+
+NETWORK = [FTP, FTPNoMLSD]
+BY_NAME.update((b.name, b) for b in NETWORK)
+
+
+def network_available():
+    """(True, "") when the loop-back FTP server can be started here, else (False, why)."""
+    try:
+        import ftpserver
+        return ftpserver.available()
+    except Exception as e:  # noqa
+        return False, "%s: %s" % (type(e).__name__, e)
